@@ -71,6 +71,11 @@ CHECKS = {
          "spec/Proxy.tla models a body as segments with real integer lengths and defines the inspected prefix (16 KiB of the Latin-1 -> UTF-8 transcoding), the first in-window marker and the resulting insertion offset; TLC enumerates fillers of ASCII/high/NUL bytes, near-markers, the four markers in three letter cases, at every offset from 16384-9 to 16384+1 of both the original and the transcoded text, with second markers and marker-free bodies, and checks FirstMarker; the harness renders the bytes, sends them plain and gzip-encoded through the real filterHTML and compares output bytes, declared length and encoding header.",
          "Trusted: TLC, the byte renderer, compress/gzip. In the ambiguous zone (marker within 16 KiB of the original but beyond 16 KiB of the transcoding) either outcome is accepted; byte preservation and length are always required.",
          "6/C20"),
+ "C15": ("model_checking",
+         "TLC enumeration of rule sets x hostnames x option flags with the TLA+ cosmetic meaning (sub-domain and wildcard-TLD semantics, exceptions); replay through CosmeticEngine.Match and Engine.GetCosmeticResult",
+         "spec/Cosmetic.tla defines which element-hiding rules apply to a hostname (listed domains and their sub-domains, wildcard TLD through PSL answers, excluded domains), which are cancelled by an applicable exception with the same selector, and how the CSS / generic-CSS flags filter and file the selectors. TLC enumerates every set of up to 3 (quick) / 5 (thorough) rules of a 16-rule pool on 7 hostnames and checks FlagsOK and SubdomainsCovered; each set is loaded in seeded order/splits into the real engines and all 8 flag combinations are compared as selector sets.",
+         "Trusted: TLC, the renderer (cross-checked against NewCosmeticRule's fields); the model's PSL is checked against the real list on every host.",
+         "6/C15"),
 }
 
 NOT_YET = "check not built yet in this session (see DESIGN.md section 6 for the planned TLA+ decision procedure)"
